@@ -116,12 +116,44 @@ def r2_propagation(L, repo):
                       lit_fmt(want), lit_fmt(lits), line=c.lineno)
             L.require("C12.R2", F, fn, "%s() receiver is the loop transceiver" % meth, V, canon(c.func.value), line=c.lineno)
     # selection of the list
-    defs = [n for n in ast.walk(fd) if isinstance(n, ast.Assign) and canon(n.targets[0]) == LIST]
-    L.require("C12.R2", F, fn, "definitions of the selected-transceiver list", 2, len(defs))
-    if len(defs) != 2:
-        return
     sel = {("self.child_mgt", True), ("0 == self.child_idx", True)}
     seen = {"children": 0, "self": 0}
+    if isinstance(loop.iter, ast.IfExp):
+        # the selection written as a conditional expression in the loop header (e.g. an inlined helper
+        # `return [self, *children]` / `return [self]`)
+        ie = loop.iter
+        base = guard_literals(cfg, cfg.node_of(loop))
+        pos, neg = literals(ie.test, True), literals(ie.test, False)
+        for lits_, val, is_else in ((pos, ie.body, False), (None, ie.orelse, True)):
+            v = canon(val)
+            if not is_else and set(lits_) | set(base) == sel:
+                ok = v in ("[self, *self.child_trx_list.trx_list]", "[self] + self.child_trx_list.trx_list",
+                           "[self] + list(self.child_trx_list.trx_list)")
+                seen["children"] += 1
+                L.ob("C12.R2", F, fn, "managing parent (child_mgt and child_idx == 0) selects itself and all children",
+                     "[self, *self.child_trx_list.trx_list]", v, ok, loop.lineno)
+            elif is_else and set(pos) | set(base) == sel:
+                seen["self"] += 1
+                L.ob("C12.R2", F, fn, "otherwise only the transceiver itself is selected", "[self] in the else branch",
+                     v, v == "[self]", loop.lineno)
+            elif not is_else and set(literals(ie.test, False)) and set(literals(ast.UnaryOp(op=ast.Not(), operand=ie.test), True)) | set(base) == sel:
+                # negated test: body is the 'only self' branch
+                seen["self"] += 1
+                L.ob("C12.R2", F, fn, "otherwise only the transceiver itself is selected", "[self] in the else branch",
+                     v, v == "[self]", loop.lineno)
+        if seen == {"children": 0, "self": 1}:
+            v = canon(ie.orelse)
+            seen["children"] += 1
+            L.ob("C12.R2", F, fn, "managing parent (child_mgt and child_idx == 0) selects itself and all children",
+                 "[self, *self.child_trx_list.trx_list]", v,
+                 v in ("[self, *self.child_trx_list.trx_list]", "[self] + self.child_trx_list.trx_list",
+                       "[self] + list(self.child_trx_list.trx_list)"), loop.lineno)
+        defs = []
+    else:
+        defs = [n for n in ast.walk(fd) if isinstance(n, ast.Assign) and canon(n.targets[0]) == LIST]
+        L.require("C12.R2", F, fn, "definitions of the selected-transceiver list", 2, len(defs))
+        if len(defs) != 2:
+            return
     for d in defs:
         lits = guard_literals(cfg, cfg.node_of(d))
         v = canon(d.value)
